@@ -513,6 +513,14 @@ pub fn run(tier: Tier) -> i32 {
         ("transformed-group/v", r##"<g id="t" transform="translate(10 3)"><rect wh="5"/></g>"##, r##"xy="#base|v 2""##, (2.5, 14.)),
         ("transformed-group/V", r##"<g id="t" transform="translate(10 3)"><rect wh="5"/></g>"##, r##"xy="#base|V 2""##, (2.5, -5.)),
         ("offset-rect/h", r##"<rect id="t" xy="5 7" wh="5"/>"##, r##"xy="#base|h 2""##, (17., 0.5)),
+        // fourth review round: targets given by their centre; anchors other than the top-left corner
+        ("origin-circle/h", r##"<circle id="t" r="4"/>"##, r##"xy="#base|h 2""##, (26., 10.)),
+        ("offset-circle/h", r##"<circle id="t" cxy="10 10" r="4"/>"##, r##"xy="#base|h 2""##, (16., 0.)),
+        ("offset-circle/loc", r##"<circle id="t" cxy="10 10" r="4"/>"##, r##"xy="#base@br""##, (14., 9.)),
+        ("offset-rect/loc", r##"<rect id="t" xy="3 4" wh="8 6"/>"##, r##"xy="#base@br""##, (17., 11.)),
+        ("offset-rect/cxy", r##"<rect id="t" xy="3 4" wh="8 6"/>"##, r##"cxy="#base@c""##, (8., 3.)),
+        ("origin-ellipse/v", r##"<ellipse id="t" rxy="4 2"/>"##, r##"xy="#base|v 1""##, (15., 18.)),
+        ("plain-x-y/circle", r##"<circle id="t" r="4"/>"##, r##"x="10" y="20""##, (10., 20.)),
         ("offset-rect/v", r##"<rect id="t" xy="5 7" wh="5"/>"##, r##"xy="#base|v 2""##, (7.5, 10.)),
     ];
     let st = run_space(uses.len(), |i| {
